@@ -3,7 +3,7 @@ import collections
 import json
 import os
 import shutil
-from harness import drive_hist, gen_graph, gen_proc, gen_cc, tlc
+from harness import drive_hist, gen_graph, gen_proc, gen_cc, gen_cons, tlc
 from harness.gd import empty, node
 from harness.runner import pmap, CACHE
 
@@ -30,9 +30,22 @@ def two_connection_choices_graph():
     return g
 
 
+def exclusive_subchoices_graph():
+    """A{2,3,4}, B under option 2, C under option 3: B and C are never active together, so fixing A to its third option
+    and B and C to a value leaves nothing that has all three active - the restriction must then stay what it is."""
+    g = empty(10)
+    # (D under the first option of C stays free and shows which designs a restriction really contains)
+    g['ch'] = [{'origin': 1, 'opts': [2, 3, 4]}, {'origin': 2, 'opts': [5, 6]}, {'origin': 3, 'opts': [7, 8]},
+               {'origin': 7, 'opts': [9, 10]}]
+    g['feat'] = ['hist_exclusive_subchoices']
+    return g
+
+
 def corpus(ctx):
     rng = ctx.rng('hist')
-    gs = [base_problem_graph(), two_connection_choices_graph()]
+    # (a linked pair leaves the second member without a design variable: variable index /= choice index for the third)
+    gs = [base_problem_graph(), two_connection_choices_graph(), gen_cons.make('linked', 2, 2, 'permanent_and_independent'),
+          exclusive_subchoices_graph()]
     want = 24 if ctx.quick else 120          # candidates; run() keeps the first ones that yield a suitable problem
     tries = 0
     while len(gs) < want and tries < 4000:
@@ -85,7 +98,7 @@ def run(ctx):
     rng = ctx.rng('hist-sample')
     items = []
     mc_summary = []
-    keep = 6 if ctx.quick else 40
+    keep = 7 if ctx.quick else 40
     for pr in preps:
         if 'skip' in pr:
             continue
@@ -94,7 +107,10 @@ def run(ctx):
         mc_summary.append({'gi': pr['gi'], 'mc': pr['mc'], 'histories': len(pr['hists']), 'gen_states': pr['gen_states']})
         hs = pr['hists']
         if len(hs) > cap:
-            hs = [hs[0]] + rng.sample(hs[1:], cap-1)
+            # every history made of Fix / Free operations only is kept (all combinations of fixed variables, C15)
+            fixonly = [h for h in hs[1:] if all(o['op'] in ('Fix', 'Free') for o in h)]
+            rest = [h for h in hs[1:] if not all(o['op'] in ('Fix', 'Free') for o in h)]
+            hs = [hs[0]] + fixonly + rng.sample(rest, max(0, min(len(rest), cap-1-len(fixonly))))
         for enc in ('complete', 'fast'):
             for h in hs:
                 items.append((len(items), pr['g'], enc, pr['problem'], h, len(items) % 25 == 0))
